@@ -235,3 +235,69 @@ Proof.
     + eapply chain_cover_outside_low; eassumption.
     + eapply chain_cover_outside_high; eassumption.
 Qed.
+
+(* ---- channel fan-in ---- *)
+Lemma fstep_inv cap k s l s' :
+  fstep cap k s l = Some s' ->
+  (f_tosend s' + f_buf s' + f_recv s' = f_tosend s + f_buf s + f_recv s)%nat
+  /\ (2 * f_tosend s' + f_buf s' < 2 * f_tosend s + f_buf s)%nat.
+Proof.
+  destruct l; cbn [fstep];
+    repeat match goal with |- context [if ?b then _ else _] => destruct b eqn:? end; try discriminate;
+    intros H; injection H as <-; cbn [f_tosend f_buf f_recv];
+    repeat match goal with H : (_ && _)%bool = true |- _ => apply andb_prop in H as [? ?] end;
+    repeat match goal with H : (_ <? _)%nat = true |- _ => apply Nat.ltb_lt in H end;
+    repeat match goal with H : (_ =? _)%nat = true |- _ => apply Nat.eqb_eq in H end; lia.
+Qed.
+
+Lemma frun_inv cap k ls : forall s s', frun cap k s ls = Some s' ->
+  (f_tosend s' + f_buf s' + f_recv s' = f_tosend s + f_buf s + f_recv s)%nat
+  /\ (length ls + (2 * f_tosend s' + f_buf s') <= 2 * f_tosend s + f_buf s)%nat.
+Proof.
+  induction ls as [|l ls IH]; intros s s' H; cbn [frun] in H.
+  - injection H as <-. cbn. lia.
+  - destruct (fstep cap k s l) as [s1|] eqn:E; [|discriminate].
+    destruct (fstep_inv _ _ _ _ _ E). destruct (IH _ _ H). cbn [length]. lia.
+Qed.
+
+(* when as many values are received as there are senders: no reachable state is stuck
+   before all k values are received (for EVERY capacity, 0 included), every run has at
+   most 2k steps, and at the end every value has been received exactly once *)
+Theorem fanin_no_deadlock cap k ls s :
+  frun cap k (finit k) ls = Some s ->
+  (length ls <= 2 * k)%nat
+  /\ (f_tosend s + f_buf s + f_recv s = k)%nat
+  /\ ((f_recv s < k)%nat -> exists l s', fstep cap k s l = Some s').
+Proof.
+  intros H. destruct (frun_inv _ _ _ _ _ H) as [I1 I2]. cbn [finit f_tosend f_buf f_recv] in *.
+  split; [lia|]. split; [lia|]. intros Hr.
+  destruct (f_buf s) as [|b] eqn:Eb.
+  - exists FHandoff. cbn [fstep]. rewrite Eb.
+    replace (0 <? f_tosend s)%nat with true by (symmetry; apply Nat.ltb_lt; lia).
+    replace (f_recv s <? k)%nat with true by (symmetry; apply Nat.ltb_lt; lia).
+    cbn. eexists. reflexivity.
+  - exists FRecv. cbn [fstep]. rewrite Eb.
+    replace (f_recv s <? k)%nat with true by (symmetry; apply Nat.ltb_lt; lia).
+    cbn. eexists. reflexivity.
+Qed.
+
+(* ... whereas a receiver that takes FEWER values than there are senders on a channel whose
+   capacity is below the surplus leaves senders blocked forever (the failure mode of a
+   fan-out wider than the channel capacity) *)
+Theorem fanin_surplus_senders_block :
+  exists s, frun 1 1 (finit 3) [FHandoff; FSend] = Some s
+            /\ f_tosend s = 1%nat /\ forall l, fstep 1 1 s l = None.
+Proof. eexists. split; [reflexivity|]. split; [reflexivity|]. intros []; reflexivity. Qed.
+
+(* the index ranges of one Execute call are pairwise disjoint: every index is covered by
+   exactly one range, so per-index writes of different tasks cannot conflict *)
+Theorem execute_ranges_disjoint n m x : 0 <= n -> 1 <= m ->
+  cover_count x (execute_ranges n m) = (if (0 <=? x) && (x <? n) then 1%nat else 0%nat).
+Proof.
+  intros Hn Hm. pose proof (execute_ranges_chain n m Hn Hm) as Hc.
+  destruct (Z.leb_spec 0 x); destruct (Z.ltb_spec x n); cbn [andb].
+  - apply (chain_cover_once 0 _ n); [exact Hc|lia].
+  - apply (chain_cover_outside_high 0 _ n); [exact Hc|lia].
+  - apply (chain_cover_outside_low 0 _ n); [exact Hc|lia].
+  - apply (chain_cover_outside_low 0 _ n); [exact Hc|lia].
+Qed.
